@@ -2,10 +2,11 @@ package main
 
 import (
 	"fmt"
-	"strings"
 	"go/constant"
 	"go/token"
 	"go/types"
+	"sort"
+	"strings"
 
 	"golang.org/x/tools/go/ssa"
 )
@@ -95,57 +96,109 @@ func c19CSVStrict(c *Ctx) {
 
 func c19Records(c *Ctx) {
 	const rule = "C19.records"
-	fn := c.a.CreateCmd
-	name := safeFname(fn)
-	var reads []*ssa.Call
-	allInstrs(fn, func(i ssa.Instruction) {
-		if call, ok := i.(*ssa.Call); ok && calleeName(&call.Call) == "(*encoding/csv.Reader).Read" {
-			reads = append(reads, call)
-		}
-		if call, ok := i.(*ssa.Call); ok && calleeName(&call.Call) == "(*encoding/csv.Reader).ReadAll" {
-			c.r.undecided(rule, name+": ReadAll", "records are read with ReadAll, a form this rule does not follow", c.w.ipos(i))
-		}
-	})
+	top := c.a.CreateCmd
+	name := safeFname(top)
+	fns := c.scope(top, 2, c.a.NormalizeHeader)
+	type readSite struct {
+		fn   *ssa.Function
+		call *ssa.Call
+	}
+	var reads []readSite
+	for _, fn := range fns {
+		allInstrs(fn, func(i ssa.Instruction) {
+			if call, ok := i.(*ssa.Call); ok && calleeName(&call.Call) == "(*encoding/csv.Reader).Read" {
+				reads = append(reads, readSite{fn, call})
+			}
+			if call, ok := i.(*ssa.Call); ok && calleeName(&call.Call) == "(*encoding/csv.Reader).ReadAll" {
+				c.r.undecided(rule, name+": ReadAll", "records are read with ReadAll, a form this rule does not follow", c.w.ipos(i))
+			}
+		})
+	}
 	if len(reads) < 2 {
-		c.r.undecided(rule, name, fmt.Sprintf("expected a header read and a record-loop read, found %d csv Read call sites", len(reads)), c.w.pos(fn.Pos()))
+		c.r.undecided(rule, name, fmt.Sprintf("expected a header read and a record-loop read, found %d csv Read call sites", len(reads)), c.w.pos(top.Pos()))
 		return
 	}
-	// header: the read whose record flows into normalizeHeader
-	var header ssa.Value // normalised header value
+	// header: the read (in the command function) whose record flows into normalizeHeader
 	var headerRead *ssa.Call
-	var addRows []ssa.Instruction
-	allInstrs(fn, func(i ssa.Instruction) {
+	var normCall *ssa.Call
+	allInstrs(top, func(i ssa.Instruction) {
 		call, ok := i.(*ssa.Call)
-		if !ok {
+		if !ok || calleeFunc(&call.Call) != c.a.NormalizeHeader {
 			return
 		}
-		if calleeFunc(&call.Call) == c.a.NormalizeHeader {
-			if e, ok := call.Call.Args[0].(*ssa.Extract); ok && e.Index == 0 {
-				if rc, ok := e.Tuple.(*ssa.Call); ok {
-					headerRead = rc
-					header = call
-				}
+		if e, ok := call.Call.Args[0].(*ssa.Extract); ok && e.Index == 0 {
+			if rc, ok := e.Tuple.(*ssa.Call); ok {
+				headerRead, normCall = rc, call
 			}
-		}
-		if call.Call.IsInvoke() && call.Call.Method.Name() == "AddRow" {
-			addRows = append(addRows, i)
-		}
-		if f := calleeFunc(&call.Call); f != nil && f.Name() == "AddRow" && c.w.pkgPathOf(f) == pkgRoot {
-			addRows = append(addRows, i)
 		}
 	})
 	if headerRead == nil {
-		c.r.bad(rule, name+": header", "no csv record is passed to the header normalisation: the header is not taken from the first record", []string{c.w.pos(fn.Pos())})
+		c.r.bad(rule, name+": header", "no csv record is passed to the header normalisation: the header is not taken from the first record", []string{c.w.pos(top.Pos())})
 		return
 	}
+	// values that denote the normalised header, per function (bound through helper parameters), and the call in the
+	// command function through which each helper is entered
+	hdr := map[*ssa.Function]map[ssa.Value]bool{top: {ssa.Value(normCall): true}}
+	entry := map[*ssa.Function]ssa.Instruction{}
+	for round := 0; round < 3; round++ {
+		for _, fn := range fns {
+			if hdr[fn] == nil {
+				continue
+			}
+			allInstrs(fn, func(i ssa.Instruction) {
+				call, ok := i.(*ssa.Call)
+				if !ok {
+					return
+				}
+				g := calleeFunc(&call.Call)
+				if g == nil || g == fn {
+					return
+				}
+				inScope := false
+				for _, f := range fns {
+					if f == g {
+						inScope = true
+					}
+				}
+				if !inScope {
+					return
+				}
+				if _, ok := entry[g]; !ok {
+					if fn == top {
+						entry[g] = i
+					} else if e, ok := entry[fn]; ok {
+						entry[g] = e
+					}
+				}
+				for k, a := range call.Call.Args {
+					if hdr[fn][a] && k < len(g.Params) {
+						if hdr[g] == nil {
+							hdr[g] = map[ssa.Value]bool{}
+						}
+						hdr[g][g.Params[k]] = true
+					}
+				}
+			})
+		}
+	}
 	// the header read happens once and before any other read
-	okHdr := !c.fc.reachableFrom(fn, headerRead, headerRead)
+	okHdr := !c.fc.reachableFrom(top, headerRead, headerRead)
 	for _, r := range reads {
-		if r != headerRead && c.fc.reachableFrom(fn, r, headerRead) {
+		if r.call == headerRead {
+			continue
+		}
+		at := ssa.Instruction(r.call)
+		if r.fn != top {
+			at = entry[r.fn]
+			if at == nil {
+				okHdr = false
+				continue
+			}
+		}
+		if c.fc.reachableFrom(top, at, headerRead) || !c.fc.reachableFrom(top, headerRead, at) {
 			okHdr = false
 		}
 	}
-	// header record used only by normalizeHeader
 	if e := extractOf(headerRead, 0); e != nil {
 		for _, u := range usesOf(e) {
 			if call, ok := u.(*ssa.Call); !ok || calleeFunc(&call.Call) != c.a.NormalizeHeader {
@@ -154,100 +207,59 @@ func c19Records(c *Ctx) {
 		}
 	}
 	c.r.check(okHdr, rule, name+": header", "the first record read is the header and is used only for that", "the header is not exactly the first record (another read precedes it, it is read repeatedly, or the header record is also used as data)", c.w.ipos(headerRead))
-	isAddRow := func(i ssa.Instruction) bool {
-		for _, a := range addRows {
-			if a == i {
-				return true
-			}
-		}
-		return false
-	}
-	isRead := func(i ssa.Instruction) bool {
-		for _, r := range reads {
-			if ssa.Instruction(r) == i {
-				return true
-			}
-		}
-		return false
-	}
+
 	k := 0
-	for _, r := range reads {
-		if r == headerRead {
+	for _, rs := range reads {
+		if rs.call == headerRead {
 			continue
 		}
 		k++
-		key := fmt.Sprintf("%s: record read#%d", name, k)
+		fn, r := rs.fn, rs.call
+		key := fmt.Sprintf("%s: record read#%d", safeFname(fn), k)
 		rec := extractOf(r, 0)
 		errv := extractOf(r, 1)
 		if rec == nil || errv == nil {
 			c.r.bad(rule, key, "a record is read and discarded (or its error ignored): that record never becomes a row", []string{c.w.ipos(r)})
 			continue
 		}
-		// (2) the row map passed to AddRow is filled from this record and the normalised header with the same index
-		var rowOK bool
-		var why = "no AddRow call takes a map filled from this record"
+		var addRows []ssa.Instruction
+		allInstrs(fn, func(i ssa.Instruction) {
+			call, ok := i.(*ssa.Call)
+			if !ok {
+				return
+			}
+			if call.Call.IsInvoke() && call.Call.Method.Name() == "AddRow" {
+				addRows = append(addRows, i)
+			}
+			if f := calleeFunc(&call.Call); f != nil && f.Name() == "AddRow" && c.w.pkgPathOf(f) == pkgRoot {
+				addRows = append(addRows, i)
+			}
+		})
+		isAddRow := func(i ssa.Instruction) bool {
+			for _, a := range addRows {
+				if a == i {
+					return true
+				}
+			}
+			return false
+		}
+		isRead := func(i ssa.Instruction) bool {
+			for _, x := range reads {
+				if ssa.Instruction(x.call) == i {
+					return true
+				}
+			}
+			return false
+		}
+		// (2) the row passed to AddRow is built from this record and the normalised header
+		rowOK, why := false, "no AddRow call takes a row built from this record"
 		for _, a := range addRows {
 			cc := callCommon(a)
-			args := cc.Args
-			m := args[len(args)-1]
-			mk, ok := m.(*ssa.MakeMap)
-			if !ok {
-				why = "the row passed to AddRow is not a map made for this record"
-				continue
-			}
-			// the map must be made after this read in the same iteration
-			if !mk.Block().Dominates(a.Block()) {
-				continue
-			}
-			nUpd := 0
-			good := true
-			for _, u := range referrers(mk) {
-				mu, ok := u.(*ssa.MapUpdate)
-				if !ok {
-					continue
-				}
-				nUpd++
-				kl, ok1 := mu.Key.(*ssa.UnOp)
-				vl, ok2 := mu.Value.(*ssa.UnOp)
-				if !ok1 || !ok2 {
-					good, why = false, "map key/value are not plain elements of header/record"
-					continue
-				}
-				ki, ok1 := kl.X.(*ssa.IndexAddr)
-				vi, ok2 := vl.X.(*ssa.IndexAddr)
-				if !ok1 || !ok2 {
-					good, why = false, "map key/value are not plain elements of header/record"
-					continue
-				}
-				switch {
-				case ki.X != header:
-					good, why = false, "the column name is not taken from the normalised header"
-				case !phiIncludes(vi.X, rec):
-					good, why = false, "the value is not taken from the record just read"
-				case ki.Index != vi.Index:
-					good, why = false, "header and record are indexed differently: values land in the wrong columns"
-				default:
-					// the index ranges over the record from 0: phi(-1)+1 < len(record)
-					ib, io := lin(vi.Index)
-					lb, isCtr := phiLower(ib)
-					if !isCtr || lb+io != 0 {
-						good, why = false, "the field loop does not start at the first field"
-					}
-					upper := false
-					for _, cm := range cmpsAt(mu) {
-						if cm.Y != nil && cm.Op == token.LSS && cm.X == vi.Index && (isLenOf(cm.Y, rec) || isLenOf(cm.Y, vi.X)) {
-							upper = true
-						}
-					}
-					if !upper {
-						good, why = false, "the field loop does not run over the whole record"
-					}
-				}
-			}
-			if nUpd == 1 && good {
+			m := cc.Args[len(cc.Args)-1]
+			if ok, w := rowBuilt(c, m, func(x ssa.Value) bool { return hdr[fn][x] }, func(x ssa.Value) bool { return phiIncludes(x, rec) }, a, 0); ok {
 				rowOK = true
-			} else if nUpd != 1 && good {
-				why = fmt.Sprintf("the row map is filled at %d sites", nUpd)
+			} else {
+				why = w
 			}
 		}
 		if !rowOK {
@@ -287,6 +299,89 @@ func c19Records(c *Ctx) {
 	}
 }
 
+// rowBuilt: m (the argument of AddRow at instruction `at`) is a map made for this record and filled with
+// header[i] -> record[i] for the same index i running over the whole record; or the result of a module helper that builds
+// such a map from parameters bound to the header and the record.
+func rowBuilt(c *Ctx, m ssa.Value, isHeader, isRec func(ssa.Value) bool, at ssa.Instruction, depth int) (bool, string) {
+	if depth > 2 {
+		return false, "the row is built too deep in helpers"
+	}
+	if call, callee, vals, ok := resultOrigins(c.w, m); ok {
+		var ph, pr ssa.Value
+		for k, a := range call.Call.Args {
+			if k >= len(callee.Params) {
+				continue
+			}
+			if isHeader(a) {
+				ph = callee.Params[k]
+			}
+			if isRec(a) {
+				pr = callee.Params[k]
+			}
+		}
+		if ph == nil || pr == nil {
+			return false, "the helper that builds the row is not given the normalised header and the record just read"
+		}
+		for _, rv := range vals {
+			if ok, why := rowBuilt(c, rv, func(x ssa.Value) bool { return x == ph }, func(x ssa.Value) bool { return x == pr }, nil, depth+1); !ok {
+				return false, why
+			}
+		}
+		return true, ""
+	}
+	mk, ok := m.(*ssa.MakeMap)
+	if !ok {
+		return false, "the row passed to AddRow is not a map made for this record"
+	}
+	if at != nil && !mk.Block().Dominates(at.Block()) {
+		return false, "the row map is not created on the way to this AddRow"
+	}
+	nUpd := 0
+	for _, u := range referrers(mk) {
+		mu, ok := u.(*ssa.MapUpdate)
+		if !ok {
+			continue
+		}
+		nUpd++
+		kl, ok1 := mu.Key.(*ssa.UnOp)
+		vl, ok2 := mu.Value.(*ssa.UnOp)
+		if !ok1 || !ok2 {
+			return false, "map key/value are not plain elements of header/record"
+		}
+		ki, ok1 := kl.X.(*ssa.IndexAddr)
+		vi, ok2 := vl.X.(*ssa.IndexAddr)
+		if !ok1 || !ok2 {
+			return false, "map key/value are not plain elements of header/record"
+		}
+		switch {
+		case !isHeader(ki.X):
+			return false, "the column name is not taken from the normalised header"
+		case !isRec(vi.X):
+			return false, "the value is not taken from the record just read"
+		case ki.Index != vi.Index:
+			return false, "header and record are indexed differently: values land in the wrong columns"
+		}
+		ib, io := lin(vi.Index)
+		lb, isCtr := phiLower(ib)
+		if !isCtr || lb+io != 0 {
+			return false, "the field loop does not start at the first field"
+		}
+		upper := false
+		for _, cm := range cmpsAt(mu) {
+			if cm.Y != nil && cm.Op == token.LSS && cm.X == vi.Index && isLenOf(cm.Y, vi.X) {
+				upper = true
+			}
+		}
+		if !upper {
+			return false, "the field loop does not run over the whole record"
+		}
+	}
+	if nUpd != 1 {
+		return false, fmt.Sprintf("the row map is filled at %d sites", nUpd)
+	}
+	return true, ""
+}
+
 func c19Normalize(c *Ctx) {
 	const rule = "C19.normalize"
 	fn := c.a.NormalizeHeader
@@ -321,60 +416,50 @@ func c19Normalize(c *Ctx) {
 	}
 	r := ssa.Value(cl.Params[0])
 	okAll, why := true, ""
+	// interpret the mapping function for one representative of every interval of the rune domain induced by the
+	// constants it compares its argument with: the result must be the argument itself only inside 'a'..'z', and '_' otherwise
+	pts := map[int64]bool{0: true, 0x10FFFF: true, 'a': true, 'z': true}
 	allInstrs(cl, func(i ssa.Instruction) {
-		ret, ok := i.(*ssa.Return)
-		if !ok || len(ret.Results) != 1 {
-			return
-		}
-		v := ret.Results[0]
-		if k, ok := v.(*ssa.Const); ok && k.Value != nil && k.Value.Kind() == constant.Int {
-			if n, _ := constant.Int64Val(k.Value); n == '_' {
-				return
-			}
-			okAll, why = false, fmt.Sprintf("a rune is mapped to the constant %q, not '_'", rune(mustInt(k)))
-			return
-		}
-		if v != r {
-			okAll, why = false, "a rune is mapped to something other than itself or '_'"
-			return
-		}
-		// returning r requires 'a' <= r <= 'z'
-		lo, hi := false, false
-		for _, cm := range cmpsAt(ret) {
-			if cm.Y == nil {
-				continue
-			}
-			x, y, op := cm.X, cm.Y, cm.Op
-			if _, isK := constInt(x); isK {
-				x, y, op = y, x, swapOp(op)
-			}
-			k, isK := constInt(y)
-			if !isK || x != r {
-				continue
-			}
-			switch op {
-			case token.GEQ:
-				if k >= 'a' {
-					lo = true
-				}
-			case token.GTR:
-				if k >= 'a'-1 {
-					lo = true
-				}
-			case token.LEQ:
-				if k <= 'z' {
-					hi = true
-				}
-			case token.LSS:
-				if k <= 'z'+1 {
-					hi = true
+		if b, ok := i.(*ssa.BinOp); ok {
+			for _, pair := range [][2]ssa.Value{{b.X, b.Y}, {b.Y, b.X}} {
+				if peelConv(pair[0]) == r {
+					if k, ok := constInt(pair[1]); ok {
+						pts[k] = true
+					}
 				}
 			}
-		}
-		if !lo || !hi {
-			okAll, why = false, "a rune is kept unchanged without being known to lie in 'a'..'z'"
 		}
 	})
+	var sorted []int64
+	for p := range pts {
+		if p >= 0 && p <= 0x10FFFF {
+			sorted = append(sorted, p)
+		}
+	}
+	sort.Slice(sorted, func(i, j int) bool { return sorted[i] < sorted[j] })
+	var ivals [][2]int64
+	for i, p := range sorted {
+		ivals = append(ivals, [2]int64{p, p})
+		if i+1 < len(sorted) && sorted[i+1] > p+1 {
+			ivals = append(ivals, [2]int64{p + 1, sorted[i+1] - 1})
+		}
+	}
+	for _, iv := range ivals {
+		self, val, ok := evalRuneMap(cl, r, iv[0])
+		switch {
+		case !ok:
+			okAll, why = false, "the mapping function is not a composition of comparisons of the rune with constants (cannot be interpreted)"
+		case self && !(iv[0] >= 'a' && iv[1] <= 'z'):
+			okAll, why = false, fmt.Sprintf("runes in [%s] are kept although they are outside 'a'..'z'", ivalString(iv))
+		case !self && val != '_':
+			okAll, why = false, fmt.Sprintf("runes in [%s] are mapped to %q, not '_'", ivalString(iv), rune(val))
+		case !self && iv[0] >= 'a' && iv[1] <= 'z':
+			okAll, why = false, fmt.Sprintf("letters in [%s] are replaced by '_'", ivalString(iv))
+		}
+		if !okAll {
+			break
+		}
+	}
 	c.r.check(okAll, rule, name+": mapping", "runes in a-z are kept, everything else becomes '_'", "the header normalisation deviates from 'keep a-z, replace everything else by _': "+why, c.w.pos(cl.Pos()))
 	// the normalised headers are returned one per input header, in order (append in a range loop over the input)
 }
@@ -386,71 +471,98 @@ func mustInt(k *ssa.Const) int64 {
 
 func c19ErrExit(c *Ctx) {
 	const rule = "C19.errexit"
-	fn := c.a.CreateCmd
-	name := safeFname(fn)
+	top := c.a.CreateCmd
 	n := 0
 	var flushes []ssa.Instruction
-	allInstrs(fn, func(i ssa.Instruction) {
-		call, ok := i.(*ssa.Call)
-		if !ok {
-			return
-		}
-		what := ""
-		cname := calleeName(&call.Call)
-		switch {
-		case cname == "(*encoding/csv.Reader).Read":
-			what = "csv Read"
-		case cname == "go.etcd.io/bbolt.Open":
-			what = "bbolt.Open"
-		case cname == "os.Open", cname == "os.CreateTemp":
-			what = cname
-		case call.Call.IsInvoke() && (call.Call.Method.Name() == "AddRow" || call.Call.Method.Name() == "Flush"):
-			what = call.Call.Method.Name()
-		default:
-			if f := calleeFunc(&call.Call); f != nil && c.w.pkgPathOf(f) == pkgRoot {
-				sig := f.Signature.Results()
-				if sig.Len() > 0 && isErrorType(sig.At(sig.Len()-1).Type()) {
-					what = f.Name()
-				}
+	scopeFns := c.scope(top, 2, c.a.NormalizeHeader)
+	inScope := func(f *ssa.Function) bool {
+		for _, x := range scopeFns {
+			if x == f {
+				return true
 			}
 		}
-		if what == "" {
-			return
+		return false
+	}
+	for _, fn := range scopeFns {
+		if fn.Parent() != nil {
+			continue
 		}
-		if what == "Flush" {
-			flushes = append(flushes, i)
+		sigr := fn.Signature.Results()
+		if sigr.Len() == 0 || !isErrorType(sigr.At(sigr.Len()-1).Type()) {
+			continue // helpers without an error result cannot swallow one they do not produce
 		}
-		n++
-		sig := call.Call.Signature().Results()
-		ev := resultValue(call, sig.Len()-1)
-		var cut func(pred, succ *ssa.BasicBlock) bool
-		if what == "csv Read" {
-			// io.EOF ends the input: the branch where errors.Is(err, io.EOF) / err == io.EOF holds is not a swallowed error
-			cut = func(pred, succ *ssa.BasicBlock) bool {
-				iff, ok := pred.Instrs[len(pred.Instrs)-1].(*ssa.If)
-				if !ok || pred.Succs[0] != succ {
-					return false
+		fn := fn
+		name := safeFname(fn)
+		allInstrs(fn, func(i ssa.Instruction) {
+			call, ok := i.(*ssa.Call)
+			if !ok {
+				return
+			}
+			what := ""
+			if f := calleeFunc(&call.Call); f != nil && f != fn && inScope(f) {
+				sr := f.Signature.Results()
+				if sr.Len() > 0 && isErrorType(sr.At(sr.Len()-1).Type()) {
+					what = safeFname(f)
 				}
-				cond := iff.Cond
-				if ic, ok := cond.(*ssa.Call); ok && calleeName(&ic.Call) == "errors.Is" && ic.Call.Args[0] == ev && isGlobalNamed(ic.Call.Args[1], "io", "EOF") {
-					return true
-				}
-				if b, ok := cond.(*ssa.BinOp); ok && b.Op == token.EQL {
-					if (b.X == ev && isGlobalNamed(b.Y, "io", "EOF")) || (b.Y == ev && isGlobalNamed(b.X, "io", "EOF")) {
-						return true
+			}
+			cname := calleeName(&call.Call)
+			switch {
+			case cname == "(*encoding/csv.Reader).Read":
+				what = "csv Read"
+			case cname == "go.etcd.io/bbolt.Open":
+				what = "bbolt.Open"
+			case cname == "os.Open", cname == "os.CreateTemp":
+				what = cname
+			case call.Call.IsInvoke() && (call.Call.Method.Name() == "AddRow" || call.Call.Method.Name() == "Flush"):
+				what = call.Call.Method.Name()
+			default:
+				if f := calleeFunc(&call.Call); f != nil && c.w.pkgPathOf(f) == pkgRoot {
+					sig := f.Signature.Results()
+					if sig.Len() > 0 && isErrorType(sig.At(sig.Len()-1).Type()) {
+						what = f.Name()
 					}
 				}
-				return false
 			}
-		}
-		key := fmt.Sprintf("%s: %s#%d", name, what, n)
-		out := c.fc.errPropagatedExcept(fn, call, ev, cut)
-		if out.ok {
-			c.r.ok(rule, key, out.msg, c.w.ipos(call))
-		} else {
-			c.r.bad(rule, key, "a failure of "+what+" does not make the command fail: "+out.msg, []string{c.w.ipos(out.site)}, c.fc.witnessStrings(out.witness)...)
-		}
-	})
+			if what == "" {
+				return
+			}
+			if what == "Flush" && fn == top {
+				flushes = append(flushes, i)
+			}
+			n++
+			sig := call.Call.Signature().Results()
+			ev := resultValue(call, sig.Len()-1)
+			var cut func(pred, succ *ssa.BasicBlock) bool
+			if what == "csv Read" {
+				// io.EOF ends the input: the branch where errors.Is(err, io.EOF) / err == io.EOF holds is not a swallowed error
+				cut = func(pred, succ *ssa.BasicBlock) bool {
+					iff, ok := pred.Instrs[len(pred.Instrs)-1].(*ssa.If)
+					if !ok || pred.Succs[0] != succ {
+						return false
+					}
+					cond := iff.Cond
+					if ic, ok := cond.(*ssa.Call); ok && calleeName(&ic.Call) == "errors.Is" && ic.Call.Args[0] == ev && isGlobalNamed(ic.Call.Args[1], "io", "EOF") {
+						return true
+					}
+					if b, ok := cond.(*ssa.BinOp); ok && b.Op == token.EQL {
+						if (b.X == ev && isGlobalNamed(b.Y, "io", "EOF")) || (b.Y == ev && isGlobalNamed(b.X, "io", "EOF")) {
+							return true
+						}
+					}
+					return false
+				}
+			}
+			key := fmt.Sprintf("%s: %s#%d", name, what, n)
+			out := c.fc.errPropagatedExcept(fn, call, ev, cut)
+			if out.ok {
+				c.r.ok(rule, key, out.msg, c.w.ipos(call))
+			} else {
+				c.r.bad(rule, key, "a failure of "+what+" does not make the command fail: "+out.msg, []string{c.w.ipos(out.site)}, c.fc.witnessStrings(out.witness)...)
+			}
+		})
+	}
+	fn := top
+	name := safeFname(fn)
 	c.r.expect(rule, 7)
 	// flush before success
 	isFlush := func(i ssa.Instruction) bool {
@@ -707,4 +819,116 @@ func c19NoTouch(c *Ctx) {
 	if n == 0 {
 		c.r.ok(rule, "createCmd", "no file-mutating os call besides creating the temporary file")
 	}
+}
+
+// evalRuneMap interprets g (func(rune) rune) for the concrete argument rep: reports whether it returns its argument
+// itself (self) or a constant.
+func evalRuneMap(g *ssa.Function, par ssa.Value, rep int64) (self bool, val int64, ok bool) {
+	bools := map[ssa.Value]bool{}
+	var ev func(v ssa.Value) (bool, bool)
+	ev = func(v ssa.Value) (bool, bool) {
+		if r, ok := bools[v]; ok {
+			return r, true
+		}
+		switch x := v.(type) {
+		case *ssa.Const:
+			return constBool(x)
+		case *ssa.UnOp:
+			if x.Op == token.NOT {
+				if r, ok := ev(x.X); ok {
+					return !r, true
+				}
+			}
+		case *ssa.BinOp:
+			var k int64
+			var isK bool
+			op := x.Op
+			if peelConv(x.X) == par {
+				k, isK = constInt(x.Y)
+			} else if peelConv(x.Y) == par {
+				k, isK = constInt(x.X)
+				op = swapOp(op)
+			}
+			if !isK {
+				return false, false
+			}
+			switch op {
+			case token.EQL:
+				return rep == k, true
+			case token.NEQ:
+				return rep != k, true
+			case token.LSS:
+				return rep < k, true
+			case token.LEQ:
+				return rep <= k, true
+			case token.GTR:
+				return rep > k, true
+			case token.GEQ:
+				return rep >= k, true
+			}
+		}
+		return false, false
+	}
+	b := g.Blocks[0]
+	var prev *ssa.BasicBlock
+	phiVals := map[ssa.Value]ssa.Value{}
+	for steps := 0; steps < 300; steps++ {
+		var next *ssa.BasicBlock
+		for _, ins := range b.Instrs {
+			switch x := ins.(type) {
+			case *ssa.Phi:
+				if prev != nil {
+					for k, p := range b.Preds {
+						if p == prev {
+							if r, ok := ev(x.Edges[k]); ok {
+								bools[x] = r
+							}
+							phiVals[x] = x.Edges[k]
+						}
+					}
+				}
+			case *ssa.If:
+				r, ok := ev(x.Cond)
+				if !ok {
+					return false, 0, false
+				}
+				if r {
+					next = b.Succs[0]
+				} else {
+					next = b.Succs[1]
+				}
+			case *ssa.Jump:
+				next = b.Succs[0]
+			case *ssa.Return:
+				if len(x.Results) != 1 {
+					return false, 0, false
+				}
+				v := x.Results[0]
+				for n := 0; n < 8; n++ {
+					if pv, ok := phiVals[v]; ok {
+						v = pv
+						continue
+					}
+					break
+				}
+				if peelConv(v) == par {
+					return true, 0, true
+				}
+				if k, ok := constInt(v); ok {
+					return false, k, true
+				}
+				return false, 0, false
+			case *ssa.Call, *ssa.Store, *ssa.Panic, *ssa.Send, *ssa.MapUpdate:
+				return false, 0, false
+			}
+			if next != nil {
+				break
+			}
+		}
+		if next == nil {
+			return false, 0, false
+		}
+		prev, b = b, next
+	}
+	return false, 0, false
 }
